@@ -145,7 +145,7 @@ func crashHistory(w *World, steps, allTorn, contEvery int, st *stats) bool {
 		return false
 	}
 	// adversarial junk after the last complete root record of the full file
-	for j := 0; j < 12; j++ {
+	for j := 0; j < 16; j++ {
 		g := w.CrashJunk(file, nlog, junkFor(w, file, j))
 		st.Extra["junk_images"]++
 		if !recoverAndLook(w, g, j%4 == 0, st) {
@@ -160,10 +160,27 @@ func crashHistory(w *World, steps, allTorn, contEvery int, st *stats) bool {
 // copies of real root records of this file - never a complete root record.
 func junkFor(w *World, f *memfile.File, kind int) []byte {
 	root := w.lastRoot
+	if kind >= 12 && len(w.roots) > 1 {
+		// fragments of an OLDER root record: its trailer alone (offset and
+		// length of a genuine earlier record), or a stale copy of all of it
+		old := w.roots[w.rng.Intn(len(w.roots)-1)]
+		if len(old) >= 44 {
+			switch kind % 4 {
+			case 0:
+				return append([]byte{}, old[len(old)-24:]...)
+			case 1:
+				return append([]byte{}, old...)
+			case 2:
+				return append([]byte("pad"), old[len(old)-24:]...)
+			default:
+				return append(append([]byte{}, old[len(old)-30:]...), old[len(old)-24:]...)
+			}
+		}
+	}
 	if len(root) < 44 {
 		root = append(append(append([]byte{}, magicBeg...), magicBeg...), make([]byte, 40)...)
 	}
-	switch kind % 12 {
+	switch kind % 12 { // kinds 12.. without an older root fall back to these
 	case 0:
 		return append(append([]byte{}, magicEnd...), magicEnd...)
 	case 1:
